@@ -2,7 +2,7 @@
    Statements only, each closed by `exact`, followed by Print Assumptions; non-vacuity Examples
    at the end.
 
-   Reading guide.  shell_expand genv pn pv fuel obj st is the model of spifconf_shell_expand(obj)
+   Reading guide.  shell_expand genv pn pv xo dl fuel obj st is the model of spifconf_shell_expand(obj)
    (coq/Expand/ExpandModel.v) with getenv = genv, program name / version pn / pv, the variable
    store st; obj is the object that holds the input: `cstr s rest` = the characters s, the
    terminator, then the cells `rest` (every cell access is checked: a read behind the object, or
@@ -10,7 +10,12 @@
    its argument (everything before the final strcpy back into obj).  CB = CONFIG_BUFF as a nat,
    maxj = CONFIG_BUFF - 1.  val_ok v: v has no NUL byte and is shorter than 4 GB;
    store_ok st: names and values NUL-free and short, names strictly ascending.  expand_spec is
-   the specification (coq/Expand/ExpandSpec.v). *)
+   the specification (coq/Expand/ExpandSpec.v).
+   xo and dl are the answers of the outside world to %exec(command) (not followed / refused / the
+   bytes the command wrote into the temporary file) and to %dirscan(directory) (not followed /
+   opendir fails / the names of the regular files in readdir order): parameters like genv, over
+   which every theorem quantifies; a command's output is a list of bytes shorter than 4 GB, file
+   names are NUL-free. *)
 From LV Require Import Base.Buf Strings.HelpersModel Split.SplitModel
   Expand.ExpandModel Expand.ExpandSpec Expand.ExpandLemmas Expand.StoreProofs
   Expand.ExpandProofs Expand.ExpandTheorems.
@@ -19,26 +24,32 @@ Local Open Scope Z_scope.
 (* --- never reads past the end of its input: every NUL-free string shorter than CONFIG_BUFF in an
        exactly sized object (nothing behind the terminator), every environment, every store.  This
        covers inputs ending in \, %, $, ${, $(, %name( and an open quote: they are just strings. --- *)
-Theorem C10_expand_no_overread : forall genv pn pv,
+Theorem C10_expand_no_overread : forall genv pn pv xo dl,
   (forall n v, genv n = Some v -> val_ok v) -> Forall nz_byte pn -> val_ok pv ->
+  (forall c o, xo c = ExecOut o -> Forall is_byte o /\ small o) ->
+  (forall d ns, dl d = DirList ns -> Forall (Forall nz_byte) ns) ->
   forall s st, Forall nz_byte s -> (length s < CB)%nat -> store_ok st ->
-  exists r, shell_expand_reads genv pn pv (S (length s)) (cstr s []) st = Ok r.
-Proof. intros genv pn pv H1 H2 H3 s st. exact (expand_no_overread genv pn pv H1 H2 H3 s [] st). Qed.
+  exists r, shell_expand_reads genv pn pv xo dl (S (length s)) (cstr s []) st = Ok r.
+Proof. intros genv pn pv xo dl H1 H2 H3 H4 H5 s st. exact (expand_no_overread genv pn pv xo dl H1 H2 H3 H4 H5 s [] st). Qed.
 Print Assumptions C10_expand_no_overread.
 
 (* the same with anything behind the terminator, e.g. cells that were never written *)
-Theorem C10_expand_no_overread_any_slack : forall genv pn pv,
+Theorem C10_expand_no_overread_any_slack : forall genv pn pv xo dl,
   (forall n v, genv n = Some v -> val_ok v) -> Forall nz_byte pn -> val_ok pv ->
+  (forall c o, xo c = ExecOut o -> Forall is_byte o /\ small o) ->
+  (forall d ns, dl d = DirList ns -> Forall (Forall nz_byte) ns) ->
   forall s rest st, Forall nz_byte s -> (length s < CB)%nat -> store_ok st ->
-  exists r, shell_expand_reads genv pn pv (S (length s)) (cstr s rest) st = Ok r.
+  exists r, shell_expand_reads genv pn pv xo dl (S (length s)) (cstr s rest) st = Ok r.
 Proof. exact expand_no_overread. Qed.
 Print Assumptions C10_expand_no_overread_any_slack.
 
 (* --- every cell of newbuff below the final j has been written; j never exceeds CONFIG_BUFF --- *)
-Theorem C10_expand_cells_below_j_written : forall genv pn pv,
+Theorem C10_expand_cells_below_j_written : forall genv pn pv xo dl,
   (forall n v, genv n = Some v -> val_ok v) -> Forall nz_byte pn -> val_ok pv ->
+  (forall c o, xo c = ExecOut o -> Forall is_byte o /\ small o) ->
+  (forall d ns, dl d = DirList ns -> Forall (Forall nz_byte) ns) ->
   forall s rest st nb j st', Forall nz_byte s -> (length s < CB)%nat -> store_ok st ->
-  shell_expand_reads genv pn pv (S (length s)) (cstr s rest) st = Ok (LDone nb j st') ->
+  shell_expand_reads genv pn pv xo dl (S (length s)) (cstr s rest) st = Ok (LDone nb j st') ->
   0 <= j <= config_buff /\ length nb = CB /\
   exists pre, Z.of_nat (length pre) = j /\ firstn (Z.to_nat j) nb = bytes pre.
 Proof. exact expand_cells_written. Qed.
@@ -49,10 +60,12 @@ Print Assumptions C10_expand_cells_below_j_written.
        function returns without a fault - so it never returns Uninit_read: the result does not depend
        on leftover memory - and a returned string is NUL-terminated inside the object, NUL-free
        before that and shorter than CONFIG_BUFF; the store stays well-formed and sorted --- *)
-Theorem C10_expand_initialised : forall genv pn pv,
+Theorem C10_expand_initialised : forall genv pn pv xo dl,
   (forall n v, genv n = Some v -> val_ok v) -> Forall nz_byte pn -> val_ok pv ->
+  (forall c o, xo c = ExecOut o -> Forall is_byte o /\ small o) ->
+  (forall d ns, dl d = DirList ns -> Forall (Forall nz_byte) ns) ->
   forall s rest st, Forall nz_byte s -> (length s < CB)%nat -> (CB <= length (cstr s rest))%nat -> store_ok st ->
-  exists x st', shell_expand genv pn pv (S (length s)) (cstr s rest) st = Ok (x, st') /\
+  exists x st', shell_expand genv pn pv xo dl (S (length s)) (cstr s rest) st = Ok (x, st') /\
     store_ok st' /\
     match x with
     | XBuf s' => exists o junk, s' = cstr o junk /\ Forall nz_byte o /\ Z.of_nat (length o) < config_buff /\
@@ -66,24 +79,48 @@ Print Assumptions C10_expand_initialised.
        and the expansion of every nested call argument stay below max - 1 characters (pk is the
        longest nested expansion, m the number of characters produced before giving up).
        SFuel (the specification running out of its counter) never happens. --- *)
-Theorem C10_expand_spec : forall genv pn pv,
+Theorem C10_expand_spec : forall genv pn pv xo dl,
   (forall n v, genv n = Some v -> val_ok v) -> Forall nz_byte pn -> val_ok pv ->
+  (forall c o, xo c = ExecOut o -> Forall is_byte o /\ small o) ->
+  (forall d ns, dl d = DirList ns -> Forall (Forall nz_byte) ns) ->
   forall s rest st, Forall nz_byte s -> (length s < CB)%nat -> (CB <= length (cstr s rest))%nat -> store_ok st ->
-  match expand_spec genv pn pv s st with
+  match expand_spec genv pn pv xo dl s st with
   | SOut o st' pk =>
     Z.of_nat (length o) < maxj -> Z.of_nat pk < maxj ->
-    shell_expand genv pn pv (S (length s)) (cstr s rest) st =
+    shell_expand genv pn pv xo dl (S (length s)) (cstr s rest) st =
     Ok (XBuf (cstr o (skipn (S (length o)) (cstr s rest))), st')
   | SStop StNull st' m pk =>
     Z.of_nat m < maxj -> Z.of_nat pk < maxj ->
-    shell_expand genv pn pv (S (length s)) (cstr s rest) st = Ok (XNull, st')
+    shell_expand genv pn pv xo dl (S (length s)) (cstr s rest) st = Ok (XNull, st')
   | SStop (StExt e) _ m pk =>
     Z.of_nat m < maxj -> Z.of_nat pk < maxj ->
-    shell_expand genv pn pv (S (length s)) (cstr s rest) st = Ok (XExt e, st)
+    shell_expand genv pn pv xo dl (S (length s)) (cstr s rest) st = Ok (XExt e, st)
   | SFuel => False
   end.
 Proof. exact expand_spec_holds. Qed.
 Print Assumptions C10_expand_spec.
+
+(* --- %dirscan stays inside its block: for EVERY listing (any number of names of any lengths) the
+       accumulation loop of builtin_dirscan - strcat of the name and of a blank while name, blank and
+       terminator fit the room n left in the CONFIG_BUFF block - runs without a fault: no store
+       beyond the block, no read of a cell nobody wrote.  The block ends up holding a NUL-terminated,
+       NUL-free text shorter than CONFIG_BUFF, namely dir_join: the names taken, in readdir order,
+       each followed by a blank (a subsequence of the listing; all of it when names, blanks and the
+       terminator fit). --- *)
+Theorem C10_dirscan_in_bounds : forall names, Forall (Forall nz_byte) names ->
+  exists rest', dirscan_loop names (Some 0 :: repeat None (CB - 1)) config_buff =
+                  Ok (cstr (dir_join names [] config_buff) rest') /\
+                length (cstr (dir_join names [] config_buff) rest') = CB /\
+                Forall nz_byte (dir_join names [] config_buff) /\
+                Z.of_nat (length (dir_join names [] config_buff)) < config_buff.
+Proof. exact dirscan_in_bounds. Qed.
+Print Assumptions C10_dirscan_in_bounds.
+
+Theorem C10_dirscan_lists_names : forall names,
+  (exists sel, subseq sel names /\ dir_join names [] config_buff = blanked sel) /\
+  (Z.of_nat (length (blanked names)) < config_buff -> dir_join names [] config_buff = blanked names).
+Proof. exact dirscan_lists_names. Qed.
+Print Assumptions C10_dirscan_lists_names.
 
 (* --- the variable store: after any history of puts and deletions from the empty store the list
        is strictly ascending by name and get k returns the value of the last put of k, unless k was
@@ -131,8 +168,35 @@ Qed.
 Definition ex_text : list byte :=
   [120; 126; 36; 65; 46; 36; 123; 65; 125; 37; 112; 117; 116; 40; 107; 32; 118; 41; 91; 37; 103; 101; 116; 40; 107; 41; 93; 92; 110].
 
+(* the outside world of the examples: "ls" prints "b  a\n", directory "d" holds x and yy *)
+Definition ex_exec (c : list byte) : exec_answer :=
+  if list_eq_dec Z.eq_dec c [108; 115] then ExecOut [98; 32; 32; 97; 10] else ExecRefused.
+Definition ex_dir (d : list byte) : dir_answer :=
+  if list_eq_dec Z.eq_dec d [100] then DirList [[120]; [121; 121]] else DirFail.
+
+Example C10_ex_world_ok :
+  (forall c o, ex_exec c = ExecOut o -> Forall is_byte o /\ small o) /\
+  (forall d ns, ex_dir d = DirList ns -> Forall (Forall nz_byte) ns).
+Proof.
+  split.
+  - intros c o. unfold ex_exec. destruct (list_eq_dec Z.eq_dec c [108; 115]); [|discriminate].
+    intros E. injection E as <-. split; [repeat constructor; unfold is_byte; lia|unfold small; simpl; lia].
+  - intros d ns. unfold ex_dir. destruct (list_eq_dec Z.eq_dec d [100]); [|discriminate].
+    intros E. injection E as <-. repeat constructor; unfold nz_byte; lia.
+Qed.
+
+(* "[%exec(ls)|%dirscan(d)]" expands to "[b a|x yy ]" *)
+Example C10_ex_world_run :
+  match shell_expand (getenv_of ex_env) [69] [49] ex_exec ex_dir 24
+          (cstr [91; 37; 101; 120; 101; 99; 40; 108; 115; 41; 124; 37; 100; 105; 114; 115; 99; 97; 110; 40; 100; 41; 93]
+                (repeat None (CB - 24))) [] with
+  | Ok (XBuf b, _) => take_str b = [91; 98; 32; 97; 124; 120; 32; 121; 121; 32; 93]
+  | _ => False
+  end.
+Proof. vm_compute. reflexivity. Qed.
+
 Example C10_ex_run :
-  match shell_expand (getenv_of ex_env) [69] [49] (S (length ex_text))
+  match shell_expand (getenv_of ex_env) [69] [49] ex_exec ex_dir (S (length ex_text))
                      (cstr ex_text (repeat None (CB - length ex_text - 1))) [] with
   | Ok (XBuf b, st) => take_str b = [120; 47; 104; 118; 97; 46; 118; 97; 91; 118; 93; 10] /\ st = [([107], [118])]
   | _ => False
@@ -140,13 +204,13 @@ Example C10_ex_run :
 Proof. vm_compute. split; reflexivity. Qed.
 
 Example C10_ex_spec :
-  expand_spec (getenv_of ex_env) [69] [49] ex_text [] =
+  expand_spec (getenv_of ex_env) [69] [49] ex_exec ex_dir ex_text [] =
   SOut [120; 47; 104; 118; 97; 46; 118; 97; 91; 118; 93; 10] [([107], [118])] 3.
 Proof. vm_compute. reflexivity. Qed.
 
 (* inputs that end inside a construct, in exactly sized objects *)
 Example C10_ex_endings :
-  forallb (fun s => is_ok (shell_expand_reads (getenv_of ex_env) [69] [49] (S (length s)) (cstr s []) []))
+  forallb (fun s => is_ok (shell_expand_reads (getenv_of ex_env) [69] [49] ex_exec ex_dir (S (length s)) (cstr s []) []))
     [[92]; [37]; [36]; [36; 123]; [36; 40]; [36; 123; 65]; [37; 103; 101; 116; 40]; [39; 92]; [126]; [97; 96]] = true.
 Proof. vm_compute. reflexivity. Qed.
 
